@@ -468,6 +468,8 @@ pub enum PErr {
     LenOverflow,
     TagZero,
     TooDeep,
+    /// (strict mode) a 32-bit or bool value written outside its canonical range
+    NonCanonical32(u64),
 }
 
 struct Rd<'a> {
@@ -534,15 +536,48 @@ impl<'a> Rd<'a> {
     }
 }
 
+thread_local! {
+    /// strict mode: the bytes come from the encoder under test, which must write canonical values
+    static STRICT: std::cell::Cell<bool> = const { std::cell::Cell::new(false) };
+}
+
+/// Decodes bytes written by the encoder under test: besides everything `decode` checks, 32-bit
+/// varint types must be written as the specification prescribes (uint32 / sint32 below 2^32;
+/// int32 / enum below 2^31 or sign-extended to 64 bits; bool 0 or 1). A conforming peer may
+/// truncate such values silently or reject them, so they are not "valid wire format".
+pub fn decode_strict(doc: &PDoc, m: &PMessage, bytes: &[u8]) -> Result<PMsg, PErr> {
+    STRICT.with(|s| s.set(true));
+    let r = decode(doc, m, bytes);
+    STRICT.with(|s| s.set(false));
+    r
+}
+
+fn varint32(r: &mut Rd, signed_ext: bool) -> Result<u64, PErr> {
+    let v = r.varint()?;
+    if STRICT.with(|s| s.get()) {
+        let ok = if signed_ext { v < (1 << 31) || v >= u64::MAX - (1 << 31) + 1 } else { v <= u32::MAX as u64 };
+        if !ok {
+            return Err(PErr::NonCanonical32(v));
+        }
+    }
+    Ok(v)
+}
+
 fn get_scalar(doc: &PDoc, ty: &str, tyname: Option<&str>, field_num: u32, r: &mut Rd, depth: usize) -> Result<PS, PErr> {
     Ok(match ty {
-        "int32" | "enum" => PS::I((r.varint()? as i32) as i64),
+        "int32" | "enum" => PS::I((varint32(r, true)? as i32) as i64),
         "int64" => PS::I(r.varint()? as i64),
-        "uint32" => PS::U(r.varint()? as u32 as u64),
+        "uint32" => PS::U(varint32(r, false)? as u32 as u64),
         "uint64" => PS::U(r.varint()?),
-        "sint32" => PS::I(unzz(r.varint()? as u32 as u64) as i32 as i64),
+        "sint32" => PS::I(unzz(varint32(r, false)? as u32 as u64) as i32 as i64),
         "sint64" => PS::I(unzz(r.varint()?)),
-        "bool" => PS::B(r.varint()? != 0),
+        "bool" => {
+            let v = r.varint()?;
+            if STRICT.with(|s| s.get()) && v > 1 {
+                return Err(PErr::NonCanonical32(v));
+            }
+            PS::B(v != 0)
+        }
         "fixed32" => PS::U(u32::from_le_bytes(r.take(4)?.try_into().unwrap()) as u64),
         "sfixed32" => PS::I(i32::from_le_bytes(r.take(4)?.try_into().unwrap()) as i64),
         "float" => PS::F32(u32::from_le_bytes(r.take(4)?.try_into().unwrap())),
